@@ -316,9 +316,41 @@ class IntroVisitor(ast.NodeVisitor):
         self._body_lines = function_body_lines
         self._input_sig = function_input_sig
         self._call_stack = call_stack
+        self._fun_path = fun_path
         self._store_names: Set[LocalVar] = {current_fun_name}
         self.inters: List[FunctionInteractions] = []
         self.load_paths: List[DDSPath] = []
+
+    def _argument_interactions(
+        self, node: ast.Call
+    ) -> Tuple[List[FunctionInteractions], List[DDSPath]]:
+        """
+        The interactions (calls and loads) made inside the arguments of a call. The arguments are evaluated
+        before the call itself: a value computed by a call in the argument list is an input of the call.
+        """
+        arg_nodes: List[ast.AST] = list(node.args) + [kw.value for kw in node.keywords]
+        if not any(isinstance(sub, ast.Call) for a in arg_nodes for sub in ast.walk(a)):
+            return ([], [])
+        v = IntroVisitor(
+            self._start_mod,
+            self._gctx,
+            self._body_lines,
+            self._input_sig,
+            self._function_var_names,
+            self._call_stack,
+            self._fun_path,
+        )
+        v._store_names = set(self._store_names)
+        if (
+            isinstance(node.func, (ast.Name, ast.Attribute))
+            and str(_function_name(node.func)[0]) not in self._function_var_names
+        ):
+            kept_name = _kept_function_name(node, self._start_mod, self._gctx)
+            if kept_name is not None:
+                v._store_names.add(kept_name)
+        for a in arg_nodes:
+            v.visit(a)
+        return (v.inters, v.load_paths)
 
     def visit_Call(self, node: ast.Call) -> Any:
         # _logger.debug(f"visit_Call: {node} {dir(node)} {pformat(node)}")
@@ -336,8 +368,11 @@ class IntroVisitor(ast.NodeVisitor):
         # The list of all the previous interactions.
         # This enforces the concept that the current call depends on previous calls.
         # (the paths loaded so far are part of it: a loaded value may be passed to the call)
+        # (and so are the calls and loads made in the arguments of this call)
+        (arg_inters, arg_loads) = self._argument_interactions(node)
         function_inters_sig: Optional[PyHash] = dds_hash_commut(
-            _fis_to_siglist(self.inters) + self._loads_to_siglist()
+            _fis_to_siglist(self.inters + arg_inters)
+            + self._loads_to_siglist(arg_loads)
         )
         # Check the call for dds calls or sub_calls.
         fi_or_p = InspectFunction.inspect_call(
@@ -362,10 +397,12 @@ class IntroVisitor(ast.NodeVisitor):
             self.load_paths.append(fi_or_p)
         self.generic_visit(node)
 
-    def _loads_to_siglist(self) -> List[Tuple[HK, PyHash]]:
+    def _loads_to_siglist(
+        self, more_paths: Sequence[DDSPath] = ()
+    ) -> List[Tuple[HK, PyHash]]:
         # The signatures of the paths loaded by the function so far.
         res: List[Tuple[HK, PyHash]] = []
-        for p in _no_dups(self.load_paths):
+        for p in _no_dups(self.load_paths + list(more_paths)):
             key = self._gctx.resolved_references.get(p)
             if key is not None:
                 res.append((HK(f"dep_{p}"), key))
